@@ -2,6 +2,7 @@ import Vata.Parse
 import Driver.NfaHist
 import Driver.TaHist
 import Driver.MtHist
+import Driver.BddChk
 import Vata.Proofs.LtsSim
 /-!
 # vdriver – the model side of the correspondence check
@@ -331,6 +332,10 @@ def dispatch (kind : String) (args res : List String) : Except String (Findings 
   | "lts" => checkLts args res
   | "tah" => TaHist.check args res
   | "mth" => MtHist.check false args res
+  | "bddincl" => BddChk.checkIncl args res
+  | "bddinclall" => BddChk.checkInclAll args res
+  | "bddh" => BddChk.checkHist args res
+  | "bddtd" => BddChk.checkToTd args res
   | "mthrc" => MtHist.check true args res
   | _ => throw s!"unknown kind {kind}"
 
